@@ -1327,7 +1327,7 @@ Inductive v0_in_op : v0in -> v0in -> Prop :=
     v0_in_op i (v0_set_unk i (vi_unk i ++ [u]))                          (* Inputs[i].Unknowns = append(...) *)
 | O_finalize i fs fw : v0_finalized i = false -> v0_is_some fs || v0_is_some fw = true ->
     v0_wf_script fs = true -> v0_wf_script fw = true -> (v0_is_some fw = true -> v0_is_some (vi_wu i) = true) ->
-    v0_in_op i (mk_v0in (vi_nwu i) (vi_wu i) [] 0 None None [] fs fw []). (* finalize*Input: NewPsetInput + final scripts *)
+    v0_in_op i (v0_finalize_in i fs fw). (* finalize*Input: NewPsetInput + final scripts *)
 
 Ltac btrue3 :=
   repeat match goal with
@@ -1345,7 +1345,7 @@ Proof.
   destruct Op as [i t F Wt Ewu Ews | i o F Wo L C En | i o F Wo L C | i s F Ws E | i x F Hx | i s F Ls | i s F Ls Hw
                  | i d F Wd E | i u Wu E | i fs fw F Hf Wfs Wfw Hsw];
   destruct i as [nwu wu sigs sh rd ws ders fsg fwt unk];
-  unfold v0_inv_in, v0_wf_in_core, v0_sane, v0_wufloor_in, v0_finalized, v0_cleared in *; proj3; btrue3; subst.
+  unfold v0_finalize_in, v0_inv_in, v0_wf_in_core, v0_sane, v0_wufloor_in, v0_finalized, v0_cleared in *; proj3; btrue3; subst.
   - rewrite F, Wt. proj3. rewrite !andb_true_iff. repeat split; assumption.
   - rewrite F, Wo, L, C. proj3. rewrite !andb_true_iff. repeat split; assumption.
   - rewrite F, Wo, L, C. proj3. rewrite !andb_true_iff. repeat split; assumption.
